@@ -38,6 +38,7 @@ type Contract struct {
 	Frames       map[string][]string
 	Modifies     []string
 	Inline       bool
+	Pure         bool        // modifies nothing (checked)
 	Trusted      bool        // contract assumed, body not verified (externals)
 	Thread       bool        // body runs as its own goroutine
 	Holds        [][3]string // tokens owned at entry (thread closures)
@@ -195,6 +196,9 @@ func parseContracts(path string) ([]*Contract, []*SpecDef, error) {
 			last = nil
 		case "inline":
 			cur.Inline = true
+			last = nil
+		case "pure":
+			cur.Pure = true
 			last = nil
 		case "trusted":
 			cur.Trusted = true
@@ -362,6 +366,9 @@ func parseContracts(path string) ([]*Contract, []*SpecDef, error) {
 		}
 		if src.Thread {
 			c.Thread = true
+		}
+		if src.Pure {
+			c.Pure = true
 		}
 		c.Requires = append(cp(src.Requires), c.Requires...)
 		c.Ensures = append(cp(src.Ensures), c.Ensures...)
